@@ -148,8 +148,11 @@ def check_C11(tier, replay=None):
                 properties=["Terminates"])
         res, vocab, cases, _ = mc_run(R, "MC_C11", c, name, workers=8)
         base = len(R.cases)
+        os.environ["ZV_SCRATCH"] = os.path.join(z.BUILD, "scratch")
         for i, cs in enumerate(cases):
             cs["id"] = base + i + 1
+            # every eighth case also goes through the directory scan of utils.rs with unreachable siblings on disk
+            cs["dirscan"] = (cs["id"] % 8 == 0) and not consts.get("RefsOn") == "TRUE"
         R.cases += cases
         R.vocab = vocab
         log(f"{name}: {res['distinct']} distinct states, {len(cases)} cases, {res['wall']:.1f}s")
